@@ -492,6 +492,18 @@ def body_crash(case, rec):
                     pass
             out = fresh_load_must_be_right(path, want, f"crash before step {j}/{n} {sim.log[j - 1][1:]} (initial cache: {case['initial']}, flush {case['chunk']}), then a fresh load")
             outcomes[out] += 1
+            if sim.log[j - 1][1] in ("flush", "close", "open-write"):
+                # the same step FAILS instead (disk full): the process lives on, its handlers and clean-up code run
+                restore(template, work)
+                with other_fs_tmpdir(work, case.get("tmp_other_fs")), fsim.Sim(work, keep=[path], chunk=case["chunk"], crash_at=j, fault="oserror"):
+                    try:
+                        load(path)
+                    except Exception:  # noqa: BLE001  -- a loud failure is what is expected here
+                        pass
+                out = fresh_load_must_be_right(path, want, f"write error (ENOSPC) at step {j}/{n} {sim.log[j - 1][1:]} (initial cache: {case['initial']}, flush {case['chunk']}), then a fresh load")
+                outcomes[out] += 1
+                if rec is not None:
+                    rec.count("write_errors_injected")
         if rec is not None:
             rec.count("crash_points", n)
             rec.count("loads_ok_after_crash", outcomes["ok"])
